@@ -85,3 +85,62 @@ def rule_unbound(ctx, rid='L2'):
     if done:
         ctx.passed(rid, P.funcs[next(q for q in sorted(ctx.functions) if q in P.funcs)],
                    'every name read is bound in the function', '%d analysed function(s)' % done)
+
+
+# ----------------------------------------------------------------------------------------------
+CACHE_DECORATORS = {'functools.lru_cache', 'functools.cache', 'functools.cached_property', 'lru_cache', 'cache'}
+IMMUTABLE_CALLS = {'float', 'int', 'bool', 'str', 'len', 'tuple', 'frozenset', 'complex', 'round'}
+
+
+def _returns_immutable(fn):
+    """All return expressions are literals / tuples of literals / conversions to immutable scalars."""
+    def imm(e):
+        if isinstance(e, ast.Constant):
+            return True
+        if isinstance(e, ast.Tuple):
+            return all(imm(x) for x in e.elts)
+        if isinstance(e, ast.Call) and isinstance(e.func, ast.Name) and e.func.id in IMMUTABLE_CALLS:
+            return True
+        if isinstance(e, (ast.Compare, ast.BoolOp)):
+            return True
+        return False
+    rets = [n for n in ast.walk(fn) if isinstance(n, ast.Return) and n.value is not None]
+    return bool(rets) and all(imm(r.value) for r in rets)
+
+
+def rule_memoised(ctx, rid='L3'):
+    """No function the property's rules looked at - nor anything they call inside the package - hands out objects from
+    a memo table.  A cached array / dict is one object shared by every call: an in-place scaling of it, or an edit
+    by the caller who received it, changes the result of every later call with the same arguments (results then
+    depend on history, which every property here excludes)."""
+    P = ctx.P
+    cg = P.callgraph()
+    seen = set()
+    todo = [q for q in ctx.functions if q in P.funcs]
+    while todo:
+        q = todo.pop()
+        if q in seen:
+            continue
+        seen.add(q)
+        for y in cg.get(q, ()):
+            if y in P.funcs and y not in seen:
+                todo.append(y)
+    n = 0
+    for q in sorted(seen):
+        fi = P.funcs[q]
+        for dec in fi.node.decorator_list:
+            d = dec.func if isinstance(dec, ast.Call) else dec
+            dotted = P.resolve(fi.module, d, None) or (d.id if isinstance(d, ast.Name) else ast.unparse(d))
+            if dotted in CACHE_DECORATORS or dotted.split('.')[-1] in ('lru_cache', 'cache', 'cached_property', 'memoize'):
+                n += 1
+                if _returns_immutable(fi.node):
+                    continue
+                ctx.violation(rid, fi, 'results are not handed out from a memo table',
+                              '%s is wrapped in %s and returns a mutable object (array / dict / list): every call with '
+                              'the same arguments receives the same object, so an in-place change by the library or by '
+                              'the caller leaks into later calls' % (fi.name, dotted), node=dec)
+    ctx.cover['l3_functions_checked'] = len(seen)
+    ctx.cover['l3_memoised_functions'] = n
+    if seen:
+        ctx.passed(rid, P.funcs[sorted(seen)[0]], 'results are not handed out from a memo table',
+                   '%d reachable function(s), %d memoised with immutable results' % (len(seen), n))
